@@ -940,10 +940,11 @@ impl<T: Storage> Raft<T> {
         let mci = self.mut_prs().maximal_committed_index().0;
         if self.r.raft_log.maybe_commit(mci, self.r.term) {
             let (self_id, committed) = (self.id, self.raft_log.committed);
-            self.mut_prs()
-                .get_mut(self_id)
-                .unwrap()
-                .update_committed(committed);
+            // A leader that applied its own removal keeps serving until it steps down and is
+            // no longer tracked in the progress set.
+            if let Some(pr) = self.mut_prs().get_mut(self_id) {
+                pr.update_committed(committed);
+            }
             return true;
         }
         false
@@ -1074,8 +1075,12 @@ impl<T: Storage> Raft<T> {
                 );
             }
             let self_id = self.id;
-            let pr = self.mut_prs().get_mut(self_id).unwrap();
-            if pr.maybe_update(index) && self.maybe_commit() && self.should_bcast_commit() {
+            // `None` if this leader has applied its own removal (see `maybe_commit`).
+            let updated = self
+                .mut_prs()
+                .get_mut(self_id)
+                .is_some_and(|pr| pr.maybe_update(index));
+            if updated && self.maybe_commit() && self.should_bcast_commit() {
                 self.bcast_append();
             }
         }
